@@ -1,0 +1,19 @@
+// SPDX-FileCopyrightText: 2020-present Open Networking Foundation <info@opennetworking.org>
+//
+// SPDX-License-Identifier: Apache-2.0
+
+//go:build verif
+
+package configuration
+
+import (
+	"github.com/onosproject/onos-config/pkg/southbound/gnmi"
+	"github.com/onosproject/onos-config/pkg/store/topo"
+	configurationstore "github.com/onosproject/onos-config/pkg/store/v3/configuration"
+	"github.com/onosproject/onos-lib-go/pkg/controller"
+)
+
+// NewReconcilerForVerif returns the v3 configuration reconciler on its own, without the controller runtime
+func NewReconcilerForVerif(topo topo.Store, conns gnmi.ConnManager, configurations configurationstore.Store) controller.Reconciler {
+	return &Reconciler{conns: conns, topo: topo, configurations: configurations}
+}
